@@ -15,10 +15,11 @@ func defaultAlgo(key string) string {
 	return k.AlgoNames()[0]
 }
 
-func rNone(u string) ra.Req     { return ra.Req{Method: "none", User: u} }
-func rPw(u, pw string) ra.Req   { return ra.Req{Method: "password", User: u, Password: pw} }
-func rKbd(u, ans string) ra.Req { return ra.Req{Method: "keyboard-interactive", User: u, Kbd: ans} }
-func rUnknown(u string) ra.Req  { return ra.Req{Method: "vf-unknown", User: u} }
+func rNone(u string) ra.Req      { return ra.Req{Method: "none", User: u} }
+func rPw(u, pw string) ra.Req    { return ra.Req{Method: "password", User: u, Password: pw} }
+func rKbd(u, ans string) ra.Req  { return ra.Req{Method: "keyboard-interactive", User: u, Kbd: ans} }
+func rUnknown(u string) ra.Req   { return ra.Req{Method: "vf-unknown", User: u} }
+func rGss(u, kind string) ra.Req { return ra.Req{Method: "gssapi-with-mic", User: u, Gss: kind} }
 func rQuery(u, key string) ra.Req {
 	return ra.Req{Method: "publickey", User: u, Key: key, Algo: defaultAlgo(key)}
 }
@@ -282,16 +283,22 @@ func drawOutcome(rt *rapid.T, label string, nStages int, allowPartial bool) ra.O
 	switch {
 	case x < 45:
 		return acc(drawPerms(rt, label+".perms", x%8 != 0))
-	case x < 80 || !allowPartial:
+	case x < 75 || !allowPartial:
+		o := rej()
 		if x%10 == 0 {
-			return ra.Outcome{Kind: "reject", Perms: "plain"}
+			o.Perms = "plain"
 		}
-		return rej()
+		o.Shape = rapid.SampledFrom([]string{"", "", "", "banner", "banner-empty", "multi"}).Draw(rt, label+".shape")
+		return o
 	default:
-		o := part(rapid.IntRange(0, nStages-1).Draw(rt, label+".next"))
+		o := part(rapid.IntRange(-1, nStages-1).Draw(rt, label+".next"))
+		if o.Next < 0 && x%2 == 0 {
+			o.Next = 0
+		}
 		if x >= 98 {
 			o.Perms = "plain"
 		}
+		o.Shape = rapid.SampledFrom([]string{"", "", "", "banner", "banner", "wrapf", "join"}).Draw(rt, label+".shape")
 		return o
 	}
 }
@@ -329,7 +336,7 @@ func drawSpec(rt *rapid.T, maxTries []int) ra.Spec {
 	for i := 0; i < n; i++ {
 		var st ra.Stage
 		lbl := fmt.Sprintf("st%d", i)
-		mask := rapid.IntRange(1, 7).Draw(rt, lbl+".mask")
+		mask := rapid.IntRange(1, 15).Draw(rt, lbl+".mask")
 		if mask&1 != 0 {
 			st.Password = drawCallback(rt, lbl+".pw", n, cross(genUsers, genPasswords))
 		}
@@ -339,6 +346,9 @@ func drawSpec(rt *rapid.T, maxTries []int) ra.Spec {
 		if mask&4 != 0 {
 			st.Kbd = drawCallback(rt, lbl+".kbd", n, cross(genUsers, append([]string{""}, genAnswers...)))
 			st.Kbd.Rounds = rapid.IntRange(0, 3).Draw(rt, lbl+".rounds")
+		}
+		if mask&8 != 0 {
+			st.Gss = drawCallback(rt, lbl+".gss", n, cross(genUsers, []string{"u1@VF", "u2@VF"}))
 		}
 		s.Stages = append(s.Stages, st)
 	}
@@ -394,9 +404,11 @@ func drawReq(rt *rapid.T, lbl string) ra.Req {
 			r.Form = rapid.SampledFrom([]string{"change", "short", "trailing"}).Draw(rt, lbl+".pwform")
 		}
 		return r
-	case x < 34:
+	case x < 28:
+		return rGss(u, rapid.SampledFrom([]string{"u1", "u1", "u1", "u2", "#bad-token", "#mic-session", "#mic-user", "#no-mech", "#other-mech", "#malformed"}).Draw(rt, lbl+".gss"))
+	case x < 38:
 		return rKbd(u, rapid.SampledFrom([]string{"right", "right", "wrong", "wrong", "#short", "#junk", "#othertype"}).Draw(rt, lbl+".ans"))
-	case x < 50:
+	case x < 54:
 		key := rapid.SampledFrom(genKeys).Draw(rt, lbl+".key")
 		r := rQueryAlgo(u, key, rapid.SampledFrom(ra.TestKeys().ByName[key].AlgoNames()).Draw(rt, lbl+".algo"))
 		switch rapid.IntRange(0, 29).Draw(rt, lbl+".form") {
@@ -430,11 +442,62 @@ func drawReq(rt *rapid.T, lbl string) ra.Req {
 			r.Form = "sig-trailing"
 		}
 		return r
-	case x < 98:
+	case x < 97:
 		return rUnknown(u)
+	case x < 99:
+		return rGss(u, "u1")
 	default:
 		r := rPw(u, "right")
 		r.Service = "ssh-userauth"
 		return r
+	}
+}
+
+// shapeProfiles are outcome tables whose callbacks return their decisions in
+// unusual error shapes (wrapped PartialSuccessErrors, BannerErrors, a
+// PartialSuccessError without further callbacks, multi errors), for every
+// callback kind including gssapi-with-mic and NoClientAuthCallback.
+func shapeProfiles() []namedSpec {
+	sh := func(o ra.Outcome, shape string) ra.Outcome { o.Shape = shape; return o }
+	second := ra.Stage{
+		Password:  cb(R{"u1|right": acc("plain"), "u2|right": acc("plain")}),
+		PublicKey: cb(R{"u1|A": acc("ext"), "u1|B": acc("plain")}),
+		Gss:       cb(R{"u1|u1@VF": acc("plain")}),
+	}
+	ps := []namedSpec{
+		{"shapes-wrapped-partial", ra.Spec{Stages: []ra.Stage{{
+			PublicKey: cb(R{"u1|A": sh(part(1), "banner"), "u1|B": sh(part(1), "wrapf"), "u2|A": part(1), "u1|C": sh(rej(), "banner")}),
+			Password:  cb(R{"u1|right": sh(part(1), "join"), "u1|wrong": sh(rej(), "banner"), "u2|right": sh(rej(), "multi")}),
+			Kbd:       kbdcb(1, R{"u1|right": sh(part(1), "banner"), "u1|wrong": sh(rej(), "banner-empty")}),
+			Gss:       cb(R{"u1|u1@VF": sh(part(1), "banner"), "u1|u2@VF": sh(rej(), "multi")}),
+		}, second}}},
+		{"shapes-plain-partial-everywhere", ra.Spec{NoClientAuth: true, None: cb(R{"u1": sh(part(1), "banner"), "u2": part(1)}), Stages: []ra.Stage{{
+			PublicKey: cb(R{"u1|A": part(1), "u1|B": part(-1), "u1|C": sh(rej(), "multi"), "u2|A": sh(rej(), "banner-empty")}),
+			Password:  cb(R{"u1|right": part(-1), "u1|wrong": sh(rej(), "multi")}),
+			Kbd:       kbdcb(1, R{"u1|right": part(1)}),
+			Gss:       cb(R{"u1|u1@VF": part(1), "u1|u2@VF": sh(part(1), "wrapf")}),
+		}, second}}},
+		{"shapes-wrapped-with-verified", ra.Spec{
+			Verified: cb(R{"u1|A|ssh-ed25519": sh(part(1), "banner"), "u1|B|ssh-ed25519": part(1), "u1|C|rsa-sha2-256": sh(rej(), "banner")}),
+			Stages: []ra.Stage{{
+				PublicKey: cb(R{"u1|A": acc(""), "u1|B": acc(""), "u1|C": acc("plain"), "u2|A": sh(part(1), "join")}),
+				Gss:       cb(R{"u1|u1@VF": acc("ext"), "u2|u2@VF": sh(part(1), "join")}),
+			}, second}}},
+	}
+	for i := range ps {
+		ps[i].Spec.Remote = homeRemote
+	}
+	return ps
+}
+
+// shapeAlphabet is the compact request alphabet run against shapeProfiles:
+// unsigned queries, signed requests for queried and unqueried keys, every
+// method whose callback may wrap its answer, and the follow-up steps.
+func shapeAlphabet() []ra.Req {
+	return []ra.Req{
+		rNone("u1"), rPw("u1", "right"), rPw("u1", "wrong"), rPw("u2", "right"), rKbd("u1", "right"), rKbd("u1", "wrong"),
+		rQuery("u1", "A"), rQuery("u1", "B"), rQuery("u2", "A"), rSigned("u1", "A", "valid"), rSigned("u1", "B", "valid"), rSigned("u1", "C", "valid"),
+		rSigned("u2", "A", "valid"), rSigned("u1", "A", "session-flip"),
+		rGss("u1", "u1"), rGss("u1", "u2"), rGss("u2", "u2"), rGss("u1", "#mic-session"), rGss("u1", "#bad-token"),
 	}
 }
